@@ -11,6 +11,7 @@ import random
 
 from scen import Scn
 import scenario_common as sc
+import mcsim
 
 EVSETS = [[], ["INVOKE"], ["SHUTDOWN"], ["INVOKE", "SHUTDOWN"], ["INVOKE", "BOGUS"], ["SHUTDOWN", "INVOKE", "INVOKE"]]
 IDC = ["", "", "", "", "missing", "invalid", "unknown"]
@@ -139,6 +140,10 @@ def run(ctx):
     ctx.level = "model_checking"
     ctx.assumptions += sc.ASSUME
     sc.run_families(ctx, scenarios(ctx), "extapi")
+    # call programs generated by TLC (simulated behaviours of spec/MC_Rapid.tla with API misuse), lib/mcsim.py
+    sims = mcsim.scenarios("c13s", "sim", 8 if ctx.quick else 100, ctx.seed + 7, depth=140)
+    ctx.coverage["tlc_simulated_scenarios"] = len(sims)
+    sc.run_families(ctx, sims, "tlc-simulated")
     ctx.coverage["exhaustive"] = False
 
 
